@@ -198,6 +198,19 @@ def _stub_plots():
         pass
 
 
+def too_deep(text, depth=30, ops=250):
+    """inputs whose bracket nesting or operator count comes near CPython's recursion limit: the real code reports
+    'nested too deeply' there, which the model — whose recursion is over the tree, with no stack bound — does not"""
+    d = m = 0
+    for ch in text:
+        if ch in "([{":
+            d += 1
+            m = max(m, d)
+        elif ch in ")]}":
+            d = max(0, d - 1)
+    return m > depth or sum(text.count(c) for c in "+-*/%^!<>=,;|±:") > ops
+
+
 def run(ctx, texts, stream_name="run", features=None, min_modelled=0.5, timeout=5.0, label=None):
     """texts: list of str, or of (str, feature-tag list).  Returns coverage statistics.
     `stream_name` is the driver stream (`run`); `label` names this batch in the evidence (default: the stream name)."""
@@ -209,6 +222,8 @@ def run(ctx, texts, stream_name="run", features=None, min_modelled=0.5, timeout=
     for text, tags in items:
         if "\n" in text or "\r" in text:
             continue                    # one request per line; the hex encoding would allow it, keep inputs single-line anyway
+        if too_deep(text):
+            continue                    # the host's stack depth is not modelled (C06's depth family observes the real code there)
         real = real_answer(R, text, None, timeout)
         cases.append(("%s %s" % (stream_name, _hex(text)), real, (text, tags)))
     stats = dict(total=len(cases), modelled=0, unmodelled=0, skipped_other=0, disagreements=0, by_feature={}, unmodelled_reasons={},
